@@ -1,4 +1,6 @@
 import RedoModel.Lemmas.CatlogDir
+import RedoModel.Lemmas.Pretty
+import RedoModel.Lemmas.LogRecRt
 /-!
 # C18 (replay half) — every stderr line appears exactly once, in order, under its target, in `redo-log -r`
 
@@ -9,6 +11,8 @@ Vocabulary (all defined in `Lemmas/Catlog.lean`):
 * `isRawLine l`   : `l` is emitted verbatim by `lines` — it does not parse as a record, or it is a record whose
                     kind is none of `unchanged do waiting locked unlocked done` (`isRawLine_iff`);
 * `rawLines ls`   : `(ls.filter isRawLine).map cleanLine`;
+* `unglue ls`     : the lines of a log as `catlog`'s line loop sees them — a record glued to unterminated text
+                    (`checking y... @@REDO:do:…@@ y`) counts as two lines, the text and the record (`unglue1`; model file);
 * `newOut st st'` : the entries appended between `st` and `st'`, oldest first (`st.out` is newest first);
 * `rawsOf x c`    : the texts of the `.raw` entries of `c` that are tagged `x`, in order;
 * `Step`/`Run`    : the contribution of one log line / of a whole log, in log order;
@@ -55,6 +59,84 @@ example : (redoLog exF false true 4 ["all".toList, "top".toList] ⟨[], []⟩).m
 
 example : rawLines exAllLog = ["compiling".toList, "linked".toList] := by decide +kernel
 
+/-! ## 0. Ungluing: a record that follows unterminated text on the same line -/
+
+theorem unglue_nil : unglue [] = [] := rfl
+
+theorem unglue_cons (l : List Char) (ls : List (List Char)) : unglue (l :: ls) = unglue1 l ++ unglue ls := by
+  unfold unglue
+  rw [List.flatMap_cons]
+
+/-- A line without `@` (hence without a record prefix) is one line. -/
+theorem unglue_plain (l : List Char) (h : '@' ∉ l) : unglue1 l = [l] := by
+  unfold unglue1
+  rw [RedoModel.Pretty.findSub_pre_none l h]
+
+/-- A line that starts with the record prefix is one line (a record at the start of a line is not split off anything). -/
+theorem unglue_record_line (x : List Char) : unglue1 (pre ++ x) = [pre ++ x] := by
+  have hf : findSub pre (pre ++ x) = some ([], x) := RedoModel.Pretty.findSub_pre_after [] x (by simp)
+  unfold unglue1
+  rw [hf]
+  rfl
+
+/-- A well-formed record (the records of `C18.roundtrip`) glued to non-empty `@`-free text is handled as two lines: the
+text, then the record. -/
+theorem unglue_glued (b : List Char) (r : Rec) (hb : '@' ∉ b) (hne : b ≠ [])
+    (hk : ∀ c ∈ r.kind, c ≠ ':' ∧ c ≠ '@' ∧ c ≠ '\n')
+    (hp : canonI32 r.pid = some r.pid) (ht : canonTs r.ts = true) (hx : '\n' ∉ r.text) :
+    unglue1 (b ++ format r) = [b, format r] := by
+  have hf : format r = pre ++ ((r.kind ++ ':' :: (r.pid ++ ':' :: r.ts)) ++ (sep ++ r.text)) := by
+    unfold format
+    rw [List.append_assoc]
+  have hpar := roundtrip_proof r hk hp ht hx
+  rw [hf] at hpar ⊢
+  unfold unglue1
+  rw [RedoModel.Pretty.findSub_pre_after b _ hb]
+  have he : b.isEmpty = false := by
+    cases b with
+    | nil => exact absurd rfl hne
+    | cons c cs => rfl
+  simp only [he, Bool.false_eq_true, if_false, hpar]
+
+/-- A log without any `@` is left as it is. -/
+theorem unglue_of_plain : ∀ (ls : List (List Char)), (∀ l ∈ ls, '@' ∉ l) → unglue ls = ls
+  | [], _ => rfl
+  | l :: ls, h => by
+    rw [unglue_cons, unglue_plain l (h l (List.mem_cons_self ..)),
+      unglue_of_plain ls (fun l' hl' => h l' (List.mem_cons_of_mem _ hl'))]
+    rfl
+
+theorem isPrefix_pre_of_no_at (l : List Char) (h : '@' ∉ l) : isPrefix pre l = false := by
+  cases l with
+  | nil => rfl
+  | cons c cs =>
+    exact isPrefix_cons_ne (fun e => h (by rw [e]; exact List.mem_cons_self ..))
+
+/-- The scenario of the repair: `all`'s script prints `checking y... ` without a newline and calls `redo-ifchange y`,
+whose start record lands on the same line of `all`'s log. -/
+def exGlue : Forest :=
+  [("all".toList, some ["all 1".toList, "checking y... @@REDO:do:5:1.0000@@ y".toList, "yes".toList]),
+   ("y".toList, some ["y 1".toList, "y 2".toList])]
+
+example : unglue ["all 1".toList, "checking y... @@REDO:do:5:1.0000@@ y".toList, "yes".toList] =
+    ["all 1".toList, "checking y... ".toList, "@@REDO:do:5:1.0000@@ y".toList, "yes".toList] := by decide +kernel
+
+/-- The start record that follows unterminated text is followed into `y`'s log: the text is shown as a line of its own
+(cleaned: `cleanLine` trims the trailing blank), then `y` is announced and its log shown, then `all` resumes. -/
+theorem glued_start_record_is_followed :
+    (redoLog exGlue false true (exGlue.length + 2) ["all".toList] ⟨[], []⟩).map (fun s => s.out.reverse) =
+    .ok [⟨[], .record kDo "all".toList⟩,
+         ⟨"all".toList, .raw "all 1".toList⟩,
+         ⟨"all".toList, .raw "checking y...".toList⟩,
+         ⟨"all".toList, .record kDo "y".toList⟩,
+         ⟨"y".toList, .raw "y 1".toList⟩,
+         ⟨"y".toList, .raw "y 2".toList⟩,
+         ⟨"all".toList, .record kResumed "all".toList⟩,
+         ⟨"all".toList, .raw "yes".toList⟩] := by decide +kernel
+
+/-- A first `@@REDO:` that does not start a well-formed record leaves the line alone (it is shown as text). -/
+example : unglue1 "50% @@REDO: done".toList = ["50% @@REDO: done".toList] := by decide +kernel
+
 /-! ## 1. The raw lines of a target, each once, in order -/
 
 /-- `isRawLine` is exactly "not one of the records `lines` interprets". -/
@@ -64,27 +146,40 @@ theorem isRawLine_spec (l : List Char) :
   isRawLine_iff l
 
 /-- Replaying a target that was not shown yet and has a log: among the entries the call appends, the raw
-ones tagged with that target are exactly the raw lines of its log (cleaned) — same lines, same order, each once. -/
+ones tagged with that target are exactly the raw lines (cleaned) among the lines of the log after ungluing (a record
+glued to unterminated text counts as two lines) — same lines, same order, each once. -/
 theorem raw_lines_of_target (F : Forest) (optU optR : Bool) (fuel : Nat) (t : List Char) (st st' : St) (n : Nat)
     (ls : List (List Char)) (h : catlog F optU optR fuel t st = .ok (st', n)) (ht : normpath t ∉ st.already)
     (hl : lookup F (normpath t) = some (some ls)) :
     (newOut st st').filter (fun e => decide (e.tag = t) && isRaw e.out) =
-      ((ls.filter isRawLine).map cleanLine).map (fun l => ⟨t, .raw l⟩) := by
+      (((unglue ls).filter isRawLine).map cleanLine).map (fun l => ⟨t, .raw l⟩) := by
   rw [filter_raw_eq, catlog_raws h ht hl]; rfl
 
 /-- The same, reading only the texts. -/
 theorem raw_lines_of_target' (F : Forest) (optU optR : Bool) (fuel : Nat) (t : List Char) (st st' : St) (n : Nat)
     (ls : List (List Char)) (h : catlog F optU optR fuel t st = .ok (st', n)) (ht : normpath t ∉ st.already)
     (hl : lookup F (normpath t) = some (some ls)) :
-    rawsOf t (newOut st st') = (ls.filter isRawLine).map cleanLine :=
+    rawsOf t (newOut st st') = ((unglue ls).filter isRawLine).map cleanLine :=
   catlog_raws h ht hl
 
-/-- A log of plain stderr text (no line starts with `@@REDO:`) is shown entirely. -/
+/-- A log of plain stderr text (none of the lines of the log after ungluing — a record glued to unterminated text
+counts as two lines — starts with `@@REDO:`) is shown entirely. -/
 theorem plain_log_shown (F : Forest) (optU optR : Bool) (fuel : Nat) (t : List Char) (st st' : St) (n : Nat)
     (ls : List (List Char)) (h : catlog F optU optR fuel t st = .ok (st', n)) (ht : normpath t ∉ st.already)
-    (hl : lookup F (normpath t) = some (some ls)) (hplain : ∀ l ∈ ls, isPrefix pre l = false) :
-    rawsOf t (newOut st st') = ls.map cleanLine := by
+    (hl : lookup F (normpath t) = some (some ls)) (hplain : ∀ l ∈ unglue ls, isPrefix pre l = false) :
+    rawsOf t (newOut st st') = (unglue ls).map cleanLine := by
   rw [catlog_raws h ht hl, rawLines_of_plain hplain]
+
+/-- In particular a log without any `@` (what a script that prints no record syntax writes) is shown entirely, line
+for line. -/
+theorem at_free_log_shown (F : Forest) (optU optR : Bool) (fuel : Nat) (t : List Char) (st st' : St) (n : Nat)
+    (ls : List (List Char)) (h : catlog F optU optR fuel t st = .ok (st', n)) (ht : normpath t ∉ st.already)
+    (hl : lookup F (normpath t) = some (some ls)) (hplain : ∀ l ∈ ls, '@' ∉ l) :
+    rawsOf t (newOut st st') = ls.map cleanLine := by
+  have hu := unglue_of_plain ls hplain
+  have := plain_log_shown F optU optR fuel t st st' n ls h ht hl
+    (by rw [hu]; exact fun l hm => isPrefix_pre_of_no_at l (hplain l hm))
+  rw [this, hu]
 
 example : ∃ st' n, catlog exF false true 4 "all".toList ⟨[], []⟩ = .ok (st', n) ∧
     normpath "all".toList ∉ (⟨[], []⟩ : St).already ∧ lookup exF (normpath "all".toList) = some (some exAllLog) ∧
@@ -129,23 +224,26 @@ theorem replay_marks_shown (F : Forest) (optU optR : Bool) (fuel : Nat) (t : Lis
 
 /-- During any successful `catlog` call, everything appended is attributed to targets that were not shown
 before the call and are marked shown after it; and for every target the call shows nothing or that
-target's log once. -/
+target's log — the lines of the log after ungluing (a record glued to unterminated text counts as two lines) — once. -/
 theorem replay_shows_each_once (F : Forest) (optU optR : Bool) (fuel : Nat) (t : List Char) (st st' : St) (n : Nat)
     (h : catlog F optU optR fuel t st = .ok (st', n)) :
     (∀ e ∈ newOut st st', normpath e.tag ∉ st.already ∧ normpath e.tag ∈ st'.already) ∧
     ∀ x, rawsOf x (newOut st st') = [] ∨
-      ∃ ls, lookup F (normpath x) = some (some ls) ∧ rawsOf x (newOut st st') = (ls.filter isRawLine).map cleanLine := by
+      ∃ ls, lookup F (normpath x) = some (some ls) ∧
+        rawsOf x (newOut st st') = ((unglue ls).filter isRawLine).map cleanLine := by
   obtain ⟨c, hc, hg⟩ := catlog_good F optU optR fuel t st st' n h
   rw [newOut_eq hc]
   exact ⟨hg.tags, hg.raws⟩
 
 /-- One whole `redo-log` run over any command-line targets, from the empty state: for every target `x`,
-the raw lines attributed to `x` in the final output are either none, or exactly the raw lines of `x`'s log,
-once and in order — however many paths lead to `x`. -/
+the raw lines attributed to `x` in the final output are either none, or exactly the raw lines among the lines of
+`x`'s log after ungluing (a record glued to unterminated text counts as two lines), once and in order — however many
+paths lead to `x`. -/
 theorem each_target_once (F : Forest) (optU optR : Bool) (fuel : Nat) (ts : List (List Char)) (st' : St)
     (h : redoLog F optU optR fuel ts ⟨[], []⟩ = .ok st') (x : List Char) :
     rawsOf x st'.out.reverse = [] ∨
-      ∃ ls, lookup F (normpath x) = some (some ls) ∧ rawsOf x st'.out.reverse = (ls.filter isRawLine).map cleanLine :=
+      ∃ ls, lookup F (normpath x) = some (some ls) ∧
+        rawsOf x st'.out.reverse = ((unglue ls).filter isRawLine).map cleanLine :=
   ((redoLog_inv ts _ st' (InvSt.init F []) h).1 x).2
 
 /-- The same from any state that satisfies the invariant (in particular any state with empty output);
@@ -154,14 +252,16 @@ theorem each_target_once_from (F : Forest) (optU optR : Bool) (fuel : Nat) (ts :
     (hi : InvSt F st) (h : redoLog F optU optR fuel ts st = .ok st') (x : List Char) :
     (normpath x ∉ st'.already → rawsOf x st'.out.reverse = []) ∧
     (rawsOf x st'.out.reverse = [] ∨
-      ∃ ls, lookup F (normpath x) = some (some ls) ∧ rawsOf x st'.out.reverse = (ls.filter isRawLine).map cleanLine) :=
+      ∃ ls, lookup F (normpath x) = some (some ls) ∧
+        rawsOf x st'.out.reverse = ((unglue ls).filter isRawLine).map cleanLine) :=
   (redoLog_inv ts st st' hi h).1 x
 
-/-- The first command-line target is shown completely (later targets cannot add to or remove from it). -/
+/-- The first command-line target is shown completely — the raw lines among the lines of its log after ungluing (a
+record glued to unterminated text counts as two lines) — (later targets cannot add to or remove from it). -/
 theorem first_target_shown (F : Forest) (optU optR : Bool) (fuel : Nat) (t : List Char) (ts : List (List Char))
     (st' : St) (ls : List (List Char)) (h : redoLog F optU optR fuel (t :: ts) ⟨[], []⟩ = .ok st')
     (hl : lookup F (normpath t) = some (some ls)) :
-    rawsOf t st'.out.reverse = (ls.filter isRawLine).map cleanLine :=
+    rawsOf t st'.out.reverse = ((unglue ls).filter isRawLine).map cleanLine :=
   redoLog_first h hl
 
 /-- Once a target is marked shown, the rest of the run attributes nothing raw to it any more. -/
@@ -247,15 +347,15 @@ example : "b".toList ≠ "./b".toList ∧ normpath "b".toList = normpath "./b".t
 
 /-! ## 4. Attribution: the output of a target is its lines in order, with complete sub-replays in between -/
 
-/-- The output of a successful replay of `t` is the concatenation, in the order of the lines of `t`'s log, of
-one `Step` per line; a `Step` is either some entries of `t` itself (at most two; the raw ones being exactly
+/-- The output of a successful replay of `t` is the concatenation, in the order of the lines of `t`'s log after
+ungluing (a record glued to unterminated text counts as two lines), of one `Step` per line; a `Step` is either some entries of `t` itself (at most two; the raw ones being exactly
 the cleaned line if it is a raw line) or an optional `do` record of `t` followed by one *complete* successful
 `catlog` call of the sub-target named by the line (see `Step`, `Run`). -/
 theorem tags_are_nested (F : Forest) (optU optR : Bool) (fuel : Nat) (t : List Char) (st st' : St) (n : Nat)
     (ls : List (List Char)) (h : catlog F optU optR fuel t st = .ok (st', n)) (ht : normpath t ∉ st.already)
     (hl : lookup F (normpath t) = some (some ls)) :
     ∃ fuel', fuel = fuel' + 1 ∧
-      Run (catlog F optU optR fuel') t ls { st with already := normpath t :: st.already } st' :=
+      Run (catlog F optU optR fuel') t (unglue ls) { st with already := normpath t :: st.already } st' :=
   catlog_run h ht hl
 
 /-- … and the sub-replays in between never speak for `t` (or any other target that is already marked):
@@ -297,18 +397,21 @@ example : ∃ st' n, catlog exF false true 4 "all".toList ⟨[], []⟩ = .ok (st
     obtain ⟨f, hf, hrun⟩ := tags_are_nested exF false true 4 _ _ _ _ _ hc (by simp) hl
     have : f = 3 := by omega
     subst this
+    have hu : unglue exAllLog = exAllLog := by decide +kernel
+    rw [hu] at hrun
     exact ⟨st', n, rfl, hrun⟩
 
 /-! ## 4b. Directories: names in a log are relative to the directory of the log's target -/
 
 /-- Every `do` record emitted by the replay of `t` itself (tag `t`) carries `normpath (joinP (dirOf t) x)` for the
-text `x` of some record line of `t`'s log: the name is resolved against the directory of `t`, not against the
+text `x` of some record line among the lines of `t`'s log after ungluing (a record glued to unterminated text counts
+as two lines): the name is resolved against the directory of `t`, not against the
 directory `redo-log` runs in. -/
 theorem names_resolve_against_log_directory (F : Forest) (optU optR : Bool) (fuel : Nat) (t : List Char)
     (st st' : St) (n : Nat) (ls : List (List Char)) (h : catlog F optU optR fuel t st = .ok (st', n))
     (ht : normpath t ∉ st.already) (hl : lookup F (normpath t) = some (some ls)) :
     ∀ e ∈ newOut st st', e.tag = t → ∀ y, e.out = .record kDo y →
-      ∃ l ∈ ls, ∃ g, parse l = .ok g ∧ y = normpath (joinP (dirOf t) g.text) :=
+      ∃ l ∈ unglue ls, ∃ g, parse l = .ok g ∧ y = normpath (joinP (dirOf t) g.text) :=
   catlog_doNames h ht hl
 
 /-- … and the sub-replay that follows such a record is of exactly that file.  Every step of the line loop of `t`
@@ -326,12 +429,13 @@ theorem sub_replay_is_of_the_resolved_name (F : Forest) (optU optR : Bool) (fuel
 
 /-- … and a `catlog` call on any spelling `x` that is not shown yet reads the forest entry of the cleaned name
 `normpath x` — for the sub-replay above the very name its `do` record carries: no log file marks the target shown and
-emits nothing, a log file is shown under the tag `x` (all its raw lines, once, in order); an unknown name is an error. -/
+emits nothing, a log file is shown under the tag `x` (all the raw lines among the lines of the log after ungluing — a
+record glued to unterminated text counts as two lines — once, in order); an unknown name is an error. -/
 theorem replay_reads_cleaned_name (F : Forest) (optU optR : Bool) (fuel : Nat) (x : List Char) (s s' : St) (k : Nat)
     (h : catlog F optU optR fuel x s = .ok (s', k)) (hx : normpath x ∉ s.already) :
     ∃ v, lookup F (normpath x) = some v ∧
       (v = none → s' = { s with already := normpath x :: s.already }) ∧
-      ∀ ls, v = some ls → rawsOf x (newOut s s') = (ls.filter isRawLine).map cleanLine :=
+      ∀ ls, v = some ls → rawsOf x (newOut s s') = ((unglue ls).filter isRawLine).map cleanLine :=
   catlog_reads h hx
 
 /-- Two directories: the log of `sub/a` says `do ../b` and `do c`.  The replay shows `b` (of the top directory) and
@@ -358,7 +462,7 @@ example : ∃ st' n ls, catlog exD false true 5 "sub/a".toList ⟨[], []⟩ = .o
     ((newOut ⟨[], []⟩ st').filter (fun e => decide (e.tag = "sub/a".toList))).map (·.out) =
       [.record kDo "b".toList, .record kDo "sub/c".toList, .record kDone "0 sub/a".toList] ∧
     ∀ e ∈ newOut ⟨[], []⟩ st', e.tag = "sub/a".toList → ∀ y, e.out = .record kDo y →
-      ∃ l ∈ ls, ∃ g, parse l = .ok g ∧ y = normpath (joinP (dirOf "sub/a".toList) g.text) := by
+      ∃ l ∈ unglue ls, ∃ g, parse l = .ok g ∧ y = normpath (joinP (dirOf "sub/a".toList) g.text) := by
   generalize hc : catlog exD false true 5 "sub/a".toList ⟨[], []⟩ = r
   have hok : r.map (fun v => ((newOut ⟨[], []⟩ v.1).filter (fun e => decide (e.tag = "sub/a".toList))).map (·.out)) =
       .ok [.record kDo "b".toList, .record kDo "sub/c".toList, .record kDone "0 sub/a".toList] := by
